@@ -63,7 +63,7 @@ Real(u, vp) == UCfg[u].base \o vp
 (* Session records *)
 
 \* c0: the working directory at the instant the command line was read (where its path conditions are evaluated)
-NoH == [v |-> "", a |-> NoArg, x |-> "", n |-> 0, pc |-> "", port |-> 0, prio |-> 0, viewed |-> {}, failed |-> FALSE, c0 |-> <<>>, u0 |-> ""]
+NoH == [v |-> "", a |-> NoArg, x |-> "", n |-> 0, pc |-> "", port |-> 0, prio |-> 0, viewed |-> {}, failed |-> FALSE, c0 |-> <<>>, u0 |-> "", l0 |-> FALSE]
 NoW == [v |-> "", p |-> NoPath, st |-> "", off |-> 0, sock |-> FALSE, fopen |-> FALSE, fdone |-> FALSE,
         seeked |-> FALSE, pos |-> 0, dl |-> 0, listed |-> FALSE, had |-> FALSE, ub |-> "", mv |-> FALSE]
 
@@ -131,7 +131,7 @@ SendLine(s, t, v, a, x, n) ==
   /\ \/ /\ r.h = NoH
         /\ \E rst \in (IF v \in KnownVerbs \ TransferVerbs THEN {0}
                        ELSE IF v \in TransferVerbs THEN {r.rest} ELSE {0, r.rest}) :
-             Upd(s, [r EXCEPT !.h = [NoH EXCEPT !.v = v, !.a = a, !.x = x, !.n = IF v \in TransferVerbs THEN r.rest ELSE n, !.c0 = r.cwd, !.u0 = r.user],
+             Upd(s, [r EXCEPT !.h = [NoH EXCEPT !.v = v, !.a = a, !.x = x, !.n = IF v \in TransferVerbs THEN r.rest ELSE n, !.c0 = r.cwd, !.u0 = r.user, !.l0 = r.logged],
                               !.line = t, !.rest = rst,
                               !.ab = IF r.ab = "done" THEN "" ELSE @])
         /\ UNCHANGED uused
@@ -143,6 +143,7 @@ SendLine(s, t, v, a, x, n) ==
         \* (non-transfer) command is still suspended in the backend; it is handled at once and may overtake it
         /\ r.h # NoH /\ r.h2 = NoH /\ r.ab = ""
         /\ \/ r.h.v \in OvertakenVerbs /\ v \in OvertakingVerbs
+           \/ r.h.v \in OvertakenVerbs /\ v = "user" \* USER while a path command is suspended in the backend
            \/ r.h.v = "pass" /\ v = "user"      \* USER again while the password is still being checked (a user manager that awaits)
            \/ r.h.v = "user" /\ v \in {"user", "pwd", "type", "syst"}   \* ... or while the account is still being looked up
            \/ r.h.v \in {"pasv", "epsv"} /\ v \in {"pasv", "epsv"}      \* a second passive command while the listener is being opened:
@@ -151,7 +152,7 @@ SendLine(s, t, v, a, x, n) ==
         \* an overtaking one has or has not by the time the overtaken handler resumes
         /\ \E early \in (IF r.h.v = "user" THEN {TRUE} ELSE IF v = "user" THEN BOOLEAN ELSE {FALSE}) :
              LET r0 == IF early THEN [r EXCEPT !.user = "", !.logged = FALSE, !.rnfr = NoPath] ELSE r IN
-             /\ Upd(s, [r0 EXCEPT !.h2 = [NoH EXCEPT !.v = v, !.a = a, !.x = x, !.n = n, !.c0 = r.cwd, !.u0 = r0.user], !.line = t, !.rest = 0])
+             /\ Upd(s, [r0 EXCEPT !.h2 = [NoH EXCEPT !.v = v, !.a = a, !.x = x, !.n = n, !.c0 = r.cwd, !.u0 = r0.user, !.l0 = r0.logged], !.line = t, !.rest = 0])
              /\ uused' = IF early /\ r.user # "" THEN [uused EXCEPT ![r.user] = @ - 1] ELSE uused
   /\ UNCHANGED <<tree, used, pool, table, srv>>
 
@@ -220,12 +221,18 @@ RPath(r) == Real(r.user, VPath(r))
 \* the path conditions (exists / is_dir / is_file) are evaluated when the command is read, on the working directory of that
 \* instant; permission and the action itself use the working directory in force when the handler gets there (the same one
 \* unless a pipelined CWD / CDUP overtook the handler in between)
-CPath(r) == Real(r.user, IF r.h.v = "cdup" THEN Parent(r.h.c0) ELSE Resolve(r.h.c0, r.h.a))
+\* (... and on the tree of the account of that instant: only a USER that overtakes the suspended command can make it another one)
+CPath(r) == Real(IF r.h.u0 # "" THEN r.h.u0 ELSE r.user, IF r.h.v = "cdup" THEN Parent(r.h.c0) ELSE Resolve(r.h.c0, r.h.a))
+
+\* A command is served only while the login it was read under stands.  The shipped server checks the login once, when the
+\* handler starts: a USER that overtakes a command suspended in the backend re-targets it - its permission check and its
+\* action happen in the tree of the account USER named, password or not (known finding user-overtakes-command).
+StillLogged(r) == r.logged \/ ("user-overtakes-command" \in KF /\ r.h.l0 /\ r.user # "")
 
 \* set of admissible verdicts of the guards of a path verb: "" = passes
 Verdicts(r) ==
   LET v == r.h.v IN
-  IF ~r.logged THEN {"503"}
+  IF ~StillLogged(r) THEN {"503"}
   ELSE IF v \in NeedLsn /\ r.lsn = 0 THEN {"503"}
   ELSE IF v = "rnto" /\ r.rnfr = NoPath THEN {"503"}
   ELSE IF v \in MustExist /\ ~ExistsT(tree, CPath(r)) THEN {"550"}
@@ -290,7 +297,7 @@ Outcomes(r, t) ==
          ELSE same(<<"501">>, [r EXCEPT !.rest = 0])
     [] v = "syst" -> same(<<"215">>, r)
     [] v \notin KnownVerbs -> same(<<"502">>, r)
-    [] v \in LoginVerbs /\ ~r.logged -> same(<<"503">>, r)
+    [] v \in LoginVerbs /\ ~(IF v \in PathVerbs THEN StillLogged(r) ELSE r.logged) -> same(<<"503">>, r)
     [] v = "pwd" -> same(<<"257">>, r)
     [] v = "type" -> IF r.h.x \in {"I", "A"} THEN same(<<"200">>, [r EXCEPT !.ttype = r.h.x]) ELSE same(<<"502">>, r)
     [] v = "pbsz" -> same(<<"200">>, r)
@@ -457,7 +464,10 @@ FsQuery(s, t, p, res) ==
       byW(r) == r.w.v # "" /\ r.w.st = "run" /\ r.w.sock
   IN
   /\ r0.ph = "open" /\ At(t)
-  /\ \/ /\ byH(r0) /\ r0.logged /\ Confined(r0, p)
+  /\ \/ /\ byH(r0)
+        /\ \/ r0.logged /\ Confined(r0, p)
+           \/ "user-overtakes-command" \in KF /\ r0.h.l0 /\ r0.h.u0 # "" /\ IsPrefix(UCfg[r0.h.u0].base, p)
+           \/ "user-overtakes-command" \in KF /\ r0.h.l0 /\ Confined(r0, p)
         /\ IF res # "fault" THEN Upd(s, r0)
            ELSE \E rst \in (IF r0.h.v \in TransferVerbs THEN {r0.rest, 0} ELSE {r0.rest}) :
                   Upd(s, [r0 EXCEPT !.h.failed = TRUE, !.rest = rst])
